@@ -33,6 +33,7 @@ GenTry(o) == /\ units < GenLen \/ (Paired /\ last.op = "prepare")
              /\ UNCHANGED start
 
 GenNext == \/ \E n \in NS, v \in Version : GenTry(Op("prepare", n, v))
+           \/ \E n \in NS : GenTry(Op("badprepare", n, None))
            \/ \E n \in NS : GenTry(Op("commit", n, None))
            \/ \E n \in NS : GenTry(Op("delete", n, None))
 
